@@ -307,12 +307,12 @@ pub fn run(cfg: &Cfg, rep: &mut Rep) {
             1 => r.range_i64(10000, 30000),
             2 => r.range_i64(-400, 400),
             3 => r.range_i64(-30000, 30000),
-            // the whole representable range (the duration bounds are about 3.27 million years either side of 1900) ...
-            4 => r.range_i64(-3_275_000, 3_278_800),
-            // ... and its last centuries, where an intermediate of the computation meets a bound before the result does
-            5 => if r.bool() { r.range_i64(-3_275_000, -3_274_600) } else { r.range_i64(3_278_300, 3_278_800) },
-            // years that alias an ordinary year modulo 2^16 (a table lookup or a cast on a narrower integer)
-            _ => r.range_i64(1900, 2030) + 65_536 * r.range_i64(-49, 49),
+            // (the quantifier of C08 ends at +-30 000 years: the representable range beyond it - about 3.27 million years either
+            // side of 1900 - is deliberately not judged, see DESIGN.md section 8, round 6)
+            4 => r.range_i64(-30_000, -29_000),
+            5 => r.range_i64(29_000, 30_000),
+            // years that alias an ordinary year modulo 2^8 / 2^12 (a table lookup or a cast on a narrower integer)
+            _ => (r.range_i64(1900, 2030) + *r.pick(&[256i64, 4096, 400, 1024]) * r.range_i64(-6, 6)).clamp(-30_000, 30_000),
         } as i32;
         let m = 1 + r.below(12) as u8;
         let d = 1 + r.below(cal::dim(y as i64, m as u32) as u64) as u8;
@@ -375,7 +375,7 @@ pub fn run(cfg: &Cfg, rep: &mut Rep) {
         }
         // a 60th second in a year that aliases this one modulo 2^16 / 2^8 / 400 years: no leap second was ever inserted there
         for k in [1i32, -1, 2, -2, 7, -7, 49, -49] {
-            for (yy, what) in [(y + 65_536 * k, 65_536), (y + 256 * k, 256), (y + 400 * k, 400)] {
+            for (yy, what) in [(y + 4096 * k.clamp(-6, 6), 4096), (y + 256 * k, 256), (y + 400 * k, 400)] {
                 let _ = what;
                 for (m, d) in [(6u8, 30u8), (12, 31)] {
                     let ts = SCALES[((y + k) as usize + m as usize) % 9];
